@@ -78,6 +78,10 @@ def plan(r, fmt, ntok, nchar, kinds=None):
         # a replaced token of a particular kind: the quoted original name of one rename becomes that of another (two
         # siblings with one name but different identifiers), or one identifier becomes another one of the file
         return [{"f": "class_swap", "cls": r.choice(["string", "string", "ident"]), "n": r.randint(0, 200), "m": r.randint(0, 200)}]
+    if k == "truncate_char" and fmt in ("edf", "v") and r.random() < 0.3:
+        # the text ends INSIDE a quoted string (the longer strings first): an unterminated string token
+        return [{"f": "truncate_in_string", "n": r.randint(0, 200), "frac": r.choice([0.5, 0.8, 0.95, 1.0]),
+                 "longest": r.random() < 0.6}]
     if k == "truncate_tok":
         return [{"f": k, "at": r.randint(0, max(0, ntok - 1))}]
     if k == "truncate_char":
@@ -112,6 +116,17 @@ def apply(fmt, text, plan_items):
             base = join(fmt, toks) if changed else text
             read_plan["truncate_at"] = min(it["at"], len(base))
             facts["applied"].append(f)
+        elif f == "truncate_in_string":
+            pos = [i for i, t in enumerate(toks) if len(t) > 2 and t.startswith('"')]
+            if pos:
+                if it["longest"]:
+                    m = max(len(toks[i]) for i in pos)
+                    pos = [i for i in pos if len(toks[i]) >= 0.8 * m]
+                k = pos[it["n"] % len(pos)]
+                cut = max(1, min(len(toks[k]) - 1, int(len(toks[k]) * it["frac"])))   # never past the closing quote
+                toks = toks[:k] + [toks[k][:cut]]
+                changed = True
+                facts["applied"].append("truncate_in_string")
         elif f == "delete" and toks:
             del toks[it["at"] % len(toks)]
             changed = True
